@@ -273,6 +273,12 @@ def run_configs(ctx):
         yield 'SumGrader(deleted constants)', M.SumGrader, {'answers': {'lower': '1', 'upper': '3', 'summand': 'n', 'summation_variable': 'n'},
                                                             'user_constants': {'pi': None, 'infty': None, 'c': 2.0}}, [['1', '3', 'n', 'n'], ['1', '3', 'pi', 'n']]
         yield 'MatrixGrader(deleted constants)', M.MatrixGrader, {'answers': 'x', 'variables': ['x'], 'user_constants': {'e': None, 'i': None}}, ['x', 'e']
+        def offdiag(x):
+            np.fill_diagonal(x, 0)          # an author function that works in place on what it is given
+            return x
+        yield 'MatrixGrader(in-place author function)', M.MatrixGrader, {
+            'answers': 'offdiag(A)+0*x', 'variables': ['x'], 'user_constants': {'A': M.MathArray([[1., 2.], [3., 4.]])},
+            'user_functions': {'offdiag': offdiag}, 'max_array_dim': 2}, ['offdiag(A)', 'A-[[1,0],[0,4]]', 'A', 'offdiag(A)+offdiag(A)-offdiag(A)']
         yield 'NumericalGrader(infinities)', M.NumericalGrader, {'answers': 'infty', 'allow_inf': True}, ['infty', '-infty', '5', 'arccosh(0.5)']
         yield 'IntervalGrader(infinite endpoint)', M.IntervalGrader, {'answers': '[0, infty)'}, ['[0, infty)', '[0, 5)', '(-infty, 0]']
         yield 'FormulaGrader(metric suffixes)', M.FormulaGrader, {'answers': '2k+x', 'variables': ['x'], 'metric_suffixes': True}, ['x+2000', '2k', '3%']
@@ -336,9 +342,21 @@ def run_shared(ctx):
     import mitxgraders as M
     rng = ctx.rng
     for i in range(ctx.n(480, 8000)):
-        mode = i % 7
+        mode = i % 8
         own_texts = None
-        if mode == 6:
+        if mode == 7:
+            # the same TEXT graded by graders whose variables have different dimensions (the parser caches by text)
+            tagv = 'q%d' % (3000 + i)
+
+            def build():
+                kw = dict(answers='[a, %s]' % tagv, variables=['a', tagv])
+                return {'MV': M.MatrixGrader(max_array_dim=2, sample_from={'a': M.RealVectors(shape=2), tagv: M.RealVectors(shape=2)}, **kw),
+                        'MS': M.MatrixGrader(sample_from={'a': [1, 2], tagv: [1, 2]}, **kw),
+                        'MS2': M.MatrixGrader(max_array_dim=1, sample_from={'a': [2, 3], tagv: [1, 2]}, **kw)}
+            calls = {'MV': [(None, '[a, %s]' % tagv), (None, '[a , %s]' % tagv), (None, '[%s, a]' % tagv)],
+                     'MS': [(None, '[a, %s]' % tagv), (None, '[a,%s] + [0, 0]' % tagv), (None, '[%s, a]' % tagv)],
+                     'MS2': [(None, '[a, %s]' % tagv), (None, '2*[a, %s]/2' % tagv)]}
+        elif mode == 6:
             # silent refusals (explain_* = None) of several StringGraders with different wrong_msg texts: beside the
             # differential, ABSOLUTE law -- a grader only ever speaks with its own texts (a fault that pollutes every
             # StringGrader of the process would pollute the freshly built reference too)
@@ -439,7 +457,7 @@ def run_shared(ctx):
             else:
                 e_eff = e
             ctx.seed_case('shared', i, pos)
-            if mode == 3:
+            if mode in (3, 7):
                 from mitxgraders.helpers.calc import expressions as E_
                 shared_parser = E_.PARSER
                 E_.PARSER = E_.MathParser()
@@ -463,7 +481,7 @@ def run_shared(ctx):
                     break
             dbg = bool(getattr(objs[name], 'config', {}).get('debug')) or mode == 1
             if norm(out, dbg) != norm(ref, dbg):
-                key = ['shared_subgrader', 'debug_subgrader', 'negative_powers', 'shared_parser', 'per_call_variables', 'shared_comparer', 'silent_refusals'][mode]
+                key = ['shared_subgrader', 'debug_subgrader', 'negative_powers', 'shared_parser', 'per_call_variables', 'shared_comparer', 'silent_refusals', 'same_text_other_dimensions'][mode]
                 ctx.violation('C11:shared:%s:%s' % (key, name), 'step %d (%s, expect %r, input %r) gave %r; on freshly built graders it gives %r'
                               % (pos, name, e, s, norm(out, dbg), norm(ref, dbg)), {'history': seq[-10:], 'mode': key})
                 break
